@@ -180,9 +180,22 @@ def rule_R04_3(ctx):
         for i, fd in enumerate(adt["variants"][0]["fields"]):
             _FIELD_IDX[(FUNC, fd["name"])] = i
     found = 0
-    for f in prog.hand_fns():
+    passes = [(pv, False)]
+    # second pass, only if the first finds no body evaluation: the body and
+    # the captured chain may reach the block evaluator through a helper's
+    # parameters (`run_func_body(context, closure, bindings, &stmts)`), so
+    # origins are followed into the callers
+    passes.append((None, True))
+    for pv_, through_params in passes:
+      if through_params:
+          if found:
+              break
+          pv = prov.Prov(prog, foreign="stop", field_based=False, follow_params=True)
+      for f in prog.hand_fns():
         if f.from_expansion:
             continue
+        if through_params and f.root_fn().path in bes:
+            continue      # a block evaluator handing its own block on
         for c in f.calls():
             if c.is_ptr or c.res not in bes:
                 continue
@@ -203,6 +216,10 @@ def rule_R04_3(ctx):
             own_scopes = [x for x in osx if x[0] == "param" and
                           anchors.is_chain_ty(prog, f.root_fn().locals[x[2]])
                           and x[1] == f.root_fn().path]
+            if through_params:
+                own_scopes = [x for x in osx if x[0] == "param" and x[1] in prog.fns
+                              and x[2] < len(prog.fns[x[1]].locals)
+                              and anchors.is_chain_ty(prog, prog.fns[x[1]].locals[x[2]])]
             r.inst("%s: body of a Func evaluated on chain from Func.closure=%s, caller chain=%s"
                    % (f.path, from_closure, bool(own_scopes)))
             if from_closure and not own_scopes:
